@@ -55,9 +55,11 @@ func newWorld() *world {
 	add("v=0\r\nbroken")
 	add(strings.Replace(sl.VideoOnlySdp("x"), "a=control:x\r\n", "", 1)) // a video section without control
 	w.fixtures = []*sl.Fixture{
-		{Path: "/live/a", Doc: av, Mc: &sl.FakeMulticast{}},
+		// the two multicast-capable sources are PUBLISHED ones (a real pusher session each): multicast
+		// goes through the real proxy of service/rtsp
+		{Path: "/live/a", Doc: av, Pushed: true},
 		{Path: "/live/b", Doc: vo},
-		{Path: "/live/abs", Doc: abs, Mc: &sl.FakeMulticast{}},
+		{Path: "/live/abs", Doc: abs, Pushed: true},
 		{Path: "/live/empty", Doc: nil},
 		{Path: "/live/bad", Doc: bad},
 		{Path: "/live/audio", Doc: ao},
@@ -99,12 +101,17 @@ func (w *world) ensure() {
 func (w *world) consumers() int {
 	n := 0
 	for _, f := range w.fixtures {
-		n += f.Stream.ConsumerCount()
-		if f.Mc != nil {
-			n += f.Mc.Count()
-		}
+		n += f.Held()
 	}
 	return n
+}
+
+// normTransport: the multicast parameters of a published fixture in a SETUP answer, as the model's constants
+func (w *world) normTransport(h string) string {
+	for _, f := range w.fixtures {
+		h = f.NormTransport(h)
+	}
+	return h
 }
 
 func (w *world) isFixtureStream(s *media.Stream) bool {
@@ -142,7 +149,7 @@ func (w *world) tables() string {
 		if f.Doc != nil {
 			id = w.docID[f.Doc.Text]
 		}
-		if f.Mc != nil {
+		if f.Multicast() {
 			fmt.Fprintf(&b, " %s %d 1 %s %d %s %d", Hx([]byte(f.Path)), id, Hx([]byte(sl.McIP)), sl.McPortBase, Hx([]byte(sl.McSrc)), sl.McTTL)
 		} else {
 			fmt.Fprintf(&b, " %s %d 0", Hx([]byte(f.Path)), id)
@@ -300,6 +307,7 @@ type obs struct {
 	frames    int  // media frames received during this step
 	media     bool // media was received BEFORE the response to this request (wsp: at any time during it)
 	timedOut  bool // a watchdog expired while this step was observed
+	mcMember  bool // afterwards some published source's multicast proxy has a member
 	panicked  string
 }
 
@@ -455,6 +463,9 @@ func (w *world) exec(s script, fin map[string]string) (res execResult) {
 					return
 				}
 				answered = true
+				if v, ok := it.Header["Transport"]; ok {
+					it.Header["Transport"] = w.normTransport(v)
+				}
 				o.resps = append(o.resps, it)
 				if s.flav == "wsp" && !it.WspOK {
 					o.anomalies = append(o.anomalies, "wsp envelope")
@@ -519,6 +530,13 @@ func (w *world) exec(s script, fin map[string]string) (res execResult) {
 			o.cseqOK = o.resps[0].Header["CSeq"] == q.cseq
 		}
 		o.cons, o.pub = w.consumers(), w.published(paths)
+		for _, f := range w.fixtures {
+			if f.Pushed && f.Stream != nil {
+				if m, _, _, ok := irtsp.VerifMulticastState(f.Stream.Multicastable()); ok && m > 0 {
+					o.mcMember = true
+				}
+			}
+		}
 		res.obs = append(res.obs, o)
 		if !closed {
 			pumpAll() // whatever this makes the session send is seen in front of the next response
@@ -962,6 +980,12 @@ func runC12(c *Ctx) {
 		scripts = append(scripts, g.generate()...)
 	}
 	runScripts(c, w, scripts)
+	for _, f := range w.fixtures {
+		if f.FellBack {
+			// a source could not be published by a pusher session (ANNOUNCE / SETUP record / RECORD refused)
+			c.Find(Finding{Kind: "corr", Class: "fixture-not-published", Case: "c12 fixture " + hx(f.Path), Impl: "plain registered stream with a stand-in multicast", Model: "published by a pusher session"})
+		}
+	}
 }
 
 func (g *gen) generate() []script {
@@ -1003,6 +1027,82 @@ func (g *gen) generate() []script {
 	}
 	c.Note(fmt.Sprintf("all request sequences over the %d-symbol alphabet up to length tcp=%d ws-rtsp=%d wsp=%d enumerated completely (sequences are cut after TEARDOWN)",
 		len(alpha), depth["tcp"], depth["ws"], depth["wsp"]))
+	// "TEARDOWN or disconnect releases whatever the session held", for every kind of holder: a player of
+	// each transport class (interleaved TCP, UDP unicast, multicast) on a published multicast-capable
+	// source, on one with absolute controls and on a plain one, with one or two tracks, and a recorder;
+	// each leaves by TEARDOWN, by hanging up, or is dropped at the end of the script; with and without a
+	// keep-alive in between
+	nrel := 0
+	for _, flav := range []string{"tcp", "ws", "wsp"} {
+		for _, path := range []string{"/live/a", "/live/abs", "/live/b"} {
+			for _, tr := range []string{"RTP/AVP/TCP;unicast;interleaved=%d-%d", "RTP/AVP;unicast;client_port=%d-%d", "RTP/AVP;multicast"} {
+				for tracks := 1; tracks <= 2; tracks++ {
+					for _, leave := range []string{"TEARDOWN", "H", ""} {
+						for _, keep := range []bool{false, true} {
+							s := script{flav: flav, label: "release"}
+							if flav != "tcp" {
+								s.wsPath = path
+							}
+							n := 1
+							add := func(st string) { s.steps = append(s.steps, st); n += 2 }
+							tp := func(k int) string {
+								if strings.Contains(tr, "%d") {
+									if strings.Contains(tr, "client_port") {
+										return fmt.Sprintf(tr, 40000+2*k, 40001+2*k)
+									}
+									return fmt.Sprintf(tr, 2*k, 2*k+1)
+								}
+								return tr
+							}
+							add(wire("DESCRIBE", base+path, n, "", "", ""))
+							add(wire("SETUP", g.controlURL(path, false), n, tp(0), "", ""))
+							if tracks == 2 {
+								add(wire("SETUP", g.controlURL(path, true), n, tp(1), "", ""))
+							}
+							add(wire("PLAY", base+path, n, "", "", ""))
+							if keep {
+								add(wire("OPTIONS", base+path, n, "", "", ""))
+							}
+							switch leave {
+							case "TEARDOWN":
+								add(wire("TEARDOWN", base+path, n, "", "", ""))
+							case "H":
+								add("H")
+							}
+							out = append(out, s)
+							nrel++
+						}
+					}
+				}
+			}
+		}
+		if flav == "wsp" {
+			continue // play only
+		}
+		for tracks := 1; tracks <= 2; tracks++ {
+			for _, leave := range []string{"TEARDOWN", "H", ""} {
+				s := script{flav: flav, label: "release"}
+				if flav != "tcp" {
+					s.wsPath = "/pub/x"
+				}
+				s.steps = append(s.steps, wire("ANNOUNCE", base+"/pub/x", 1, "", "application/sdp", g.w.fixtures[0].Doc.Text),
+					wire("SETUP", base+"/pub/x/streamid=0", 3, "RTP/AVP/TCP;unicast;interleaved=0-1;mode=record", "", ""))
+				if tracks == 2 {
+					s.steps = append(s.steps, wire("SETUP", base+"/pub/x/streamid=1", 5, "RTP/AVP/TCP;unicast;interleaved=2-3;mode=record", "", ""))
+				}
+				s.steps = append(s.steps, wire("RECORD", base+"/pub/x", 7, "", "", ""))
+				switch leave {
+				case "TEARDOWN":
+					s.steps = append(s.steps, wire("TEARDOWN", base+"/pub/x", 9, "", "", ""))
+				case "H":
+					s.steps = append(s.steps, "H")
+				}
+				out = append(out, s)
+				nrel++
+			}
+		}
+	}
+	c.Note(fmt.Sprintf("%d release scripts: every transport class of a player (tcp, udp, multicast; published and plain sources; one and two tracks) and a recorder, leaving by TEARDOWN, hang-up or drop", nrel))
 	// random structured scripts
 	n := c.Budget(2500, 40000)
 	paths := []string{"/live/a", "/live/a", "/live/b", "/live/abs", "/live/audio", "/live/badv", "/live/bada", "/live/empty", "/live/bad", "/live/none"}
@@ -1174,6 +1274,9 @@ func runScripts(c *Ctx, w *world, scripts []script) {
 			}
 			if o.hung {
 				c.Count("hung")
+			}
+			if o.mcMember {
+				c.Count("member-of-a-real-multicast-proxy-" + s.flav)
 			}
 			if o.media {
 				c.Count("media-before-response-" + s.flav)
